@@ -647,6 +647,17 @@ impl Check for C18 {
         "C18"
     }
 
+    fn declared_probes(&self) -> Vec<&'static str> {
+        vec![
+            "fault.adversarial-stream-words",
+            "fault.empty-source-collection",
+            "probe.collection-larger-than-100k",
+            "probe.size-0",
+            "probe.source-larger-than-2^24-members",
+            "probe.zero-sized-members-2^32",
+        ]
+    }
+
     fn rule(&self) -> String {
         "(1) uniformity experiments: every conversion flavour (16: owning / borrowing / cloning forms over Vec, array, slice, both macro arms) x \
          every length 1..=8, N seeded samples, each member's frequency vs 1/len (KL rule, total false-alarm budget 1e-9; borrowing forms \
